@@ -236,6 +236,12 @@ func (p cfgPath) SetValue(cfg *Config, opt *options, val value) Error {
 	fields := p.fields
 	node := value(cfgSub{cfg})
 
+	if len(fields) > maxNestingDepth {
+		// every element of the path is a level of nesting: the limit for nested
+		// values holds for the spelling with separators as well
+		return raiseNestingTooDeep(val.meta())
+	}
+
 	// 1. iterate until intermediate node not having some required child node
 	for ; len(fields) > 1; fields = fields[1:] {
 		field := fields[0]
